@@ -127,6 +127,25 @@ MUTANTS = [
       "    precondition(isinstance(cs, bytes), cs)\n\n", "C34.7",
       edits=[(B32, "    return base64.b32decode(cs)\n", "    return base64.b32decode(cs, casefold=True)\n")]),
     M("base32-last-character-unchecked", B32, COULDRET, "    return not tr(s, identitytranstable, chars)\n", "C34.7"),
+    # the validator lets several last characters through that differ only in the bits b32decode drops
+    M("base32-last-character-length-class-only", B32, COULDRET,
+      "    return bool(NUM_QS_LEGIT[len(s)%8]) and not tr(s, identitytranstable, chars)\n", "C34.7"),
+    M("base32-last-character-table-all-chars", B32,
+      "            add_check_array(get_trailing_chars_without_lsbs(5-(NUM_QS_TO_NUM_BITS[lenmod8]%5)), s8)\n",
+      "            add_check_array(chars, s8)\n", "C34.7"),
+    M("base32-last-character-table-one-bit-generous", B32,
+      "            add_check_array(get_trailing_chars_without_lsbs(5-(NUM_QS_TO_NUM_BITS[lenmod8]%5)), s8)\n",
+      "            add_check_array(get_trailing_chars_without_lsbs(4-(NUM_QS_TO_NUM_BITS[lenmod8]%5)), s8)\n", "C34.7"),
+    M("base32-last-character-checked-for-short-strings-only", B32, COULDRET,
+      "    return (len(s) > 40 or s8[len(s)%8][s[-1]]) and not tr(s, identitytranstable, chars)\n", "C34.7"),
+    M("base32-last-character-length-only-not-evaluable", B32, COULDRET,
+      "    import math\n    return bool(NUM_QS_LEGIT[int(math.fmod(len(s), 8))]) and not tr(s, identitytranstable, chars)\n", "C34.7"),
+    M("benign-base32-last-character-early-return", B32, COULDRET,
+      "    if not s8[len(s)%8][s[-1]]:\n        return False\n    return not tr(s, identitytranstable, chars)\n", None),
+    M("benign-base32-last-character-by-length-index", B32, COULDRET,
+      "    n = len(s)\n    row = s8[n % 8]\n    return row[s[n - 1]] and not tr(s, identitytranstable, chars)\n", None),
+    M("benign-base32-not-evaluable-but-reads-last", B32, COULDRET,
+      "    import math\n    return s8[len(s)%8][s[-1]] and not tr(s, identitytranstable, chars)\n", None),
     M("base32-alphabet-unchecked", B32, COULDRET, "    return s8[len(s)%8][s[-1]]\n", "C34.7"),
     M("base32-alphabet-both-cases", B32, "identitytranstable=identitytranstable, chars=chars):\n    precondition(isinstance(s, bytes), s)",
       "identitytranstable=identitytranstable, chars=chars + b\"ABCDEFGHIJKLMNOPQRSTUVWXYZ\"):\n    precondition(isinstance(s, bytes), s)",
